@@ -5,6 +5,8 @@ package local
 //verif:pkg apricot/local
 
 import (
+	"errors"
+
 	apricotpb "github.com/AliceO2Group/Control/apricot/protos"
 	"github.com/AliceO2Group/Control/configuration/cfgbackend"
 	"github.com/AliceO2Group/Control/configuration/componentcfg"
@@ -17,6 +19,7 @@ type c20Source struct {
 	cfgbackend.Source
 	paths  [4]string
 	exists [4]bool
+	faulty [4]bool // the backend cannot answer the existence test for this candidate (outage, throttling)
 	asked  []string
 }
 
@@ -24,6 +27,9 @@ func (s *c20Source) Exists(p string) (bool, error) {
 	s.asked = append(s.asked, p)
 	for i := range s.paths {
 		if p == s.paths[i] {
+			if s.faulty[i] {
+				return false, errors.New("Unexpected response code: 429")
+			}
 			return s.exists[i], nil
 		}
 	}
@@ -34,6 +40,7 @@ var c20RunTypes = []apricotpb.RunType{apricotpb.RunType_PHYSICS, apricotpb.RunTy
 
 // A component query resolves to the first existing entry among
 // (run type, role), (ANY, role), (run type, any), (ANY, any) and fails when none exists.
+//
 //verif:entry HarnessResolveFallback unwind=8 conform=12 reach=exact,anyrt,anyrole,anyany,none
 func HarnessResolveFallback() {
 	comp, role, entry := vrt.String("component"), vrt.String("role"), vrt.String("entry")
@@ -49,12 +56,13 @@ func HarnessResolveFallback() {
 	}
 	for i := range src.exists {
 		src.exists[i] = vrt.Bool("exists")
+		src.faulty[i] = vrt.Bool("backend.fault") // a candidate whose existence cannot be established counts as missing
 	}
 	// when the query itself already asks for ANY / any, candidates coincide: they exist together
 	for i := 0; i < 4; i++ {
 		for j := i + 1; j < 4; j++ {
 			if src.paths[i] == src.paths[j] {
-				vrt.Assume(src.exists[i] == src.exists[j])
+				vrt.Assume(src.exists[i] == src.exists[j] && src.faulty[i] == src.faulty[j])
 			}
 		}
 	}
@@ -64,7 +72,7 @@ func HarnessResolveFallback() {
 
 	want := -1
 	for i := 3; i >= 0; i-- {
-		if src.exists[i] {
+		if src.exists[i] && !src.faulty[i] {
 			want = i
 		}
 	}
@@ -76,8 +84,7 @@ func HarnessResolveFallback() {
 	vrt.Assert(err == nil && resolved != nil, "an-existing-candidate-resolves")
 	got := resolved.AbsoluteRaw()
 	vrt.Assert(got == src.paths[want], "resolves-to-the-most-specific-existing-entry")
-	ex, _ := src.Exists(got)
-	vrt.Assert(ex, "resolved-path-exists")
+	vrt.Assert(src.exists[want] && !src.faulty[want], "resolved-path-exists")
 	vrt.Assert(resolved.Component == comp && resolved.EntryKey == entry, "component-and-entry-never-change")
 	switch want {
 	case 0:
